@@ -690,6 +690,7 @@ pub fn run(ctx: &Ctx) -> Report {
     if !disabled("longcnf") {
         let w = crate::props::longcnf::bottom_up(ctx);
         rep.merge(w);
+        rep.merge(crate::props::longcnf::wide_clauses(ctx));
     }
     rep
 }
